@@ -335,7 +335,8 @@ func tryGetRedumpKey(fsys afero.Fs, requestedPath string) ([]byte, error) {
 	// try .dkey in REDKEY directory (instead of PS3ISO)
 	pathElems[ps3IsoIdx] = redkeyDir
 	pathElems[len(pathElems)-1] = strings.TrimSuffix(pathElems[len(pathElems)-1], ext) + dkeyExt
-	keyFile, err = openKeyFile(fsys, filepath.Join(pathElems...))
+	// (not filepath.Join: it drops empty first element, and with it the leading separator of a rooted path)
+	keyFile, err = openKeyFile(fsys, strings.Join(pathElems, string(filepath.Separator)))
 	if err == nil {
 		defer keyFile.Close()
 		return ReadKeyFile(keyFile)
